@@ -46,6 +46,110 @@ fn text_v(t: &str) -> Option<V> {
     sexp_to_v(forms[0].clone()).ok()
 }
 
+/// an argument tree with the shape of a recorded argument list: a distinct integer for every name, nil stays nil
+fn shape_args(shape: &V, ctr: &mut i64) -> V {
+    match shape {
+        V::A(b) if b.is_empty() => V::nil(),
+        V::A(_) => {
+            *ctr += 1;
+            V::int(*ctr * 7 + 3)
+        }
+        V::P(a, b) => {
+            // (@ name pattern) captures: the value has the shape of the pattern
+            if let V::A(h) = &**a {
+                if h == b"@" {
+                    if let Some(l) = b.proper_list() {
+                        if l.len() == 2 {
+                            return shape_args(&l[1], ctr);
+                        }
+                    }
+                }
+            }
+            let x = shape_args(a, ctr);
+            let y = shape_args(b, ctr);
+            V::cons(x, y)
+        }
+    }
+}
+
+
+fn strip_gensym(s: &str) -> String {
+    let b: Vec<char> = s.chars().collect();
+    let mut out = String::new();
+    let mut i = 0;
+    while i < b.len() {
+        if i + 3 <= b.len() && b[i] == '_' && b[i + 1] == '$' && b[i + 2] == '_' {
+            i += 3;
+            while i < b.len() && b[i].is_ascii_digit() {
+                i += 1;
+            }
+        } else {
+            out.push(b[i]);
+            i += 1;
+        }
+    }
+    out
+}
+
+fn lambdas_qq(q: &QQ, out: &mut Vec<V>) {
+    match q {
+        QQ::Data(_) => {}
+        QQ::Unquote(e) => lambdas_of(e, out),
+        QQ::Cons(a, b) => {
+            lambdas_qq(a, out);
+            lambdas_qq(b, out);
+        }
+    }
+}
+
+/// ((captures..) . parameters) of every lambda in an expression
+fn lambdas_of(e: &Expr, out: &mut Vec<V>) {
+    match e {
+        Expr::Lit(_) | Expr::Var(_) | Expr::Quote(_) => {}
+        Expr::ModVal(p) => program_lambdas(p, out),
+        Expr::Prim(_, a) | Expr::List(a) | Expr::MacroCall(_, a) => a.iter().for_each(|x| lambdas_of(x, out)),
+        Expr::If(a, b, c) => {
+            lambdas_of(a, out);
+            lambdas_of(b, out);
+            lambdas_of(c, out);
+        }
+        Expr::Call(_, a, r) => {
+            a.iter().for_each(|x| lambdas_of(x, out));
+            if let Some(r) = r {
+                lambdas_of(r, out);
+            }
+        }
+        Expr::Let(_, bs, body) => {
+            bs.iter().for_each(|(_, x)| lambdas_of(x, out));
+            lambdas_of(body, out);
+        }
+        Expr::Lambda(caps, pat, body) => {
+            let caplist = V::list(&caps.iter().map(|c| V::atom(c.as_bytes())).collect::<Vec<_>>());
+            if let Some(p) = text_v(&pat.render()) {
+                out.push(V::cons(caplist, p));
+            }
+            lambdas_of(body, out);
+        }
+        Expr::Apply(a, b) => {
+            lambdas_of(a, out);
+            lambdas_of(b, out);
+        }
+        Expr::QQ(q) => lambdas_qq(q, out),
+    }
+}
+
+fn program_lambdas(p: &Program, out: &mut Vec<V>) {
+    lambdas_of(&p.body, out);
+    for h in p.helpers.iter() {
+        match h {
+            Helper::Fun(f) => lambdas_of(&f.body, out),
+            Helper::ConstComplex(_, e, _) => lambdas_of(e, out),
+            Helper::Mac(m) => lambdas_of(&m.template, out),
+            _ => {}
+        }
+    }
+}
+
 fn is_location_text(s: &str) -> bool {
     // file(line):col[-file(line):col]
     let b = s.as_bytes();
@@ -212,9 +316,24 @@ fn judge(out: &mut Out, rng: &mut Rng, cell: &Cell, c: &Compiled, code_sig: Opti
         out.count("entries.function.code_in_program");
         present_codes.push((name.clone(), code.clone()));
         if synthesised(name) {
-            // letbinding_$_N / lambda_$_N ...: compiler-made functions; the name has no source twin to run
+            // letbinding_$_N / lambda_$_N ...: compiler-made functions; the name has no source twin to run.
+            // What can be judged for lambda_$_N: the recorded argument list is ((captures..) parameters..) of some lambda
+            // of the source (generated-name suffixes _$_N stripped).
             out.count("entries.function.synthesised_name");
             named_present.insert(name.clone());
+            if name.starts_with("lambda_$_") {
+                if let Some(at) = c.symbols.get(&format!("{k}_arguments")) {
+                    let recorded = text_v(&strip_gensym(at));
+                    let mut lambdas = vec![];
+                    program_lambdas(&case.prog, &mut lambdas);
+                    out.count("lambda_argument_lists_compared");
+                    if recorded.is_none() || !lambdas.iter().any(|l| Some(l) == recorded.as_ref()) {
+                        ok = false;
+                        out.violation(json!({"kind":"recorded_argument_list_of_a_lambda_function_is_no_lambda_of_the_source","engine":"c13","case":case.j(d),"build":cell.build,"function":name,"key":k,"recorded":at,
+                            "source_lambdas":lambdas.iter().map(|l| l.show()).collect::<Vec<_>>()}));
+                    }
+                }
+            }
             continue;
         }
         if d == Dialect::Classic {
